@@ -61,6 +61,7 @@ def _h(tier_q, tier_t):
         return out
     oc3 = oc(3); ocq = [x for x in oc3 if 's' in x.replace('a1', '').replace('b1', '') or 'w' in x] + ['ab1sR', 'ab1sa', 'ab1sb1', 'ab1B']
     hs += [HH(x, bottomconc=True) for x in ocq] + [HH(x, bottomconc=True, tiers=('thorough',)) for x in oc3 + oc(4) if x not in ocq]
+    hs += [HH(x, mainq=True) for x in ('a1', 'a1a1', 's1', 'a1s1', 'as', 'a1Ra1', 'w1', 'a1w1', 'aa1s')]     # the real thread-bound main queue (and a serial queue targeting it)
     return hs
 HARNESSES += _h(None, None)
 ASSUMPTIONS = list(ASSUMPTIONS) + ['tier Q: sequentialised model threads over the real code (every translated function resumable; a context switch is possible before every atomic access and every blocking / kernel call); the scheduler runs a bounded number of rounds in which each unfinished thread executes a solver-chosen number of visible steps, followed by a deterministic tail; interleavings needing more context switches than rounds x threads are outside']
